@@ -60,6 +60,17 @@ def _run_z3_api(smt, want_model, timeout_ms=None):
         return 'unsat', None, dt
     if r == z3.sat:
         model = None
+        # a 'sat' must be backed by a model that really satisfies every
+        # assertion (z3's sequence solver occasionally returns bogus models
+        # for equal strings built differently): otherwise it is 'unknown'
+        try:
+            mdl = s.model()
+            for a in s.assertions():
+                v = mdl.eval(a, model_completion=True)
+                if not z3.is_true(v):
+                    return 'unknown', {'note': 'sat model not confirmed'}, dt
+        except Exception:
+            return 'unknown', {'note': 'sat model evaluation failed'}, dt
         if want_model:
             try:
                 model = _model_to_dict(s.model())
@@ -155,6 +166,11 @@ def solve_one(job):
             log.append('z3-new error: %r' % (e,))
         total += dt
         log.append('z3-new:%s:%.2fs' % (v, dt))
+        if v == 'sat':
+            # the CLI model cannot be validated here and z3's sequence solver
+            # is known to return bogus models: never a refutation by itself
+            log.append('z3-new sat ignored (unvalidated)')
+            v = 'unknown'
         if v != 'unknown':
             return idx, v, m, 'z3-new', total, log
     return idx, 'unknown', None, 'none', total, log
